@@ -7,6 +7,8 @@
      api/jsonrpc/server.go         ExecuteActions  (a) per action: own declaration, fresh view, Commit    -> run_exec
                                    SimulateActions (b) one view, recording scope cleared per action       -> run_sim
      chain/transaction.go          Execute         (c) one view, declared scope, outputs until failure    -> run_tx
+                                   StateKeys + Execute: union of the declarations (+ sponsor keys), an invalid
+                                   declared key makes the transaction unexecutable                        -> tx_run
 
    Actions are programs over the key-value interface the view offers (the Go action's Execute with a fixed actor;
    timestamp and action id are not inputs: stated limitation).  A storage error (permission, invalid value)
@@ -147,6 +149,41 @@ Fixpoint run_tx (sc : key -> perm) (base : key -> option val) (pend : diff) (ps 
       match run (MScope sc) base p pend [] with
       | None => ([], false)
       | Some (o, pend', _) => let '(os, ok) := run_tx sc base pend' rest in (o :: os, ok)
+      end
+  end.
+
+(* Transaction.StateKeys: the scope of the transaction's view is the union (Keys.Add: OR of the permissions) of
+   the actions' declarations and the sponsor's keys [extra]; Keys.Add refuses a key shorter than two bytes, then
+   StateKeys / Units / Execute return an error and nothing is executed (reported as no outputs, no success).
+   [pend0] = the changes the view holds when the first action starts (the fee deduction). *)
+Definition decl_valid (d : checks) : bool := forallb (fun kp => valid_key (fst kp)) d.
+
+Definition tx_scope (extra : checks) (decls : list checks) : checks := concat decls ++ extra.
+
+Definition tx_run (extra : checks) (base : key -> option val) (pend0 : diff) (acts : list (checks * prog))
+  : list bytes * bool :=
+  let all := tx_scope extra (map fst acts) in
+  if decl_valid all then run_tx (perm_of all) base pend0 (map snd acts) else ([], false).
+
+(* every key an action touches when it runs on a view that refuses nothing is a valid key (>= 2 bytes).
+   Keys.Add cannot hold an invalid key, so no declaration can ever permit an access to one. *)
+Fixpoint touch_valid (base : key -> option val) (p : prog) (pend : diff) : bool :=
+  match p with
+  | Ret _ => true
+  | Fail => true
+  | Get k c => valid_key k && touch_valid base (c (vis base pend k)) pend
+  | Put k v c => valid_key k && (if verify_value k v then touch_valid base c ((k, Some v) :: pend) else true)
+  | Del k c => valid_key k && touch_valid base c ((k, None) :: pend)
+  end.
+
+Fixpoint sim_touch_valid (base : key -> option val) (pend : diff) (ps : list prog) : bool :=
+  match ps with
+  | [] => true
+  | p :: rest =>
+      touch_valid base p pend &&
+      match run MRecord base p pend [] with
+      | None => true
+      | Some (_, pend', _) => sim_touch_valid base pend' rest
       end
   end.
 
